@@ -724,7 +724,7 @@ func (tr *Tr) instr(fr *Frame, in ssa.Instruction) {
 	case *ssa.MakeInterface:
 		fr.env[x] = tr.makeInterface(fr, x.X.Type(), tr.val(x.X))
 	case *ssa.Alloc:
-		reg := tr.allocRegion(fr.st)
+		reg := tr.allocTyped(fr.st, x.Type().Underlying().(*types.Pointer).Elem())
 		fr.env[x] = Val{reg, f.BVi(64, 0)}
 	case *ssa.Store:
 		p := tr.val(x.Addr)
@@ -764,7 +764,7 @@ func (tr *Tr) instr(fr *Frame, in ssa.Instruction) {
 		lim := f.BVu(64, (1<<48)/uint64(n))
 		tr.oblige("alloc", x.Pos(), f.And(f.SLe(f.BVi(64, 0), l64), f.SLe(l64, c64), f.SLe(c64, lim)), "makeslice: len/cap out of range")
 		tr.allocBound(fr, x.Pos(), f.Mul(c64, f.BVi(64, int64(sizeofElem(elemType(x.Type()))))))
-		reg := tr.allocRegion(fr.st)
+		reg := tr.allocTyped(fr.st, x.Type().Underlying())
 		fr.env[x] = Val{reg, f.BVi(64, 0), l64, c64}
 	case *ssa.MakeMap:
 		id := tr.allocRegion(fr.st)
